@@ -225,6 +225,13 @@ func TestC04Rapid(t *testing.T) {
 	foreignWarmup("pdf417")
 	st := NewStats("C04", "rapid")
 	runRapid(t, st, func(rt *rapid.T) {
+		if rapid.IntRange(0, 19).Draw(rt, "seek") == 0 {
+			for _, c := range genPDFSeek(rt) {
+				c04Account(st, c, checkPDFRoundTrip(rt, c))
+				st.Class("around a size transition of the implementation (found by bisection)")
+			}
+			return
+		}
 		c := PDFCase{Content: BStr(genPDFContent(rt)), Level: rapid.IntRange(0, 8).Draw(rt, "level")}
 		res := checkPDFRoundTrip(rt, c)
 		c04Account(st, c, res)
